@@ -106,8 +106,8 @@ impl<S: EventSource> EventSource for Wrap<S> {
         F: FnMut(Self::Event, &mut Self::Metadata) -> Self::Ret,
     {
         self.sh.pe.set(self.sh.pe.get() + 1);
-        crate::engine::pe_begin(self.sh.id, token.verif_key());
-        if self.sh.should_fail(4) {
+        let injected = crate::engine::pe_begin(self.sh.id, token.verif_key());
+        if self.sh.should_fail(4) || injected {
             self.sh.last_ret.set(Some(LastRet::Err));
             crate::engine::pe_end(self.sh.id, LastRet::Err, true);
             return Err(Box::new(Scripted("process_events")));
